@@ -11,7 +11,9 @@ whose P->T direction is *held*: the crossing order is forced, not hoped for.
      KEXINIT - trivial for the crossing, still a valid history)
   4. as soon as T's KEXINIT is on the wire: user operations are started on T (they must queue):
      channel send / stream, global_request(wait=False|True), exec_command, open_session / open_channel,
-     request_port_forward; the link stays held for `hold_ms`, then M is released, then the rest in
+     request_port_forward, renegotiate_keys() (the application asks for new keys while an exchange is already
+     running); `op_at`: they are started right after T's KEXINIT, or at the last step of the exchange (T's NEWKEYS
+     is on the wire, the peer's NEWKEYS still held); the link stays held for `hold_ms`, then M is released, then the rest in
      generated portions. M kinds "open-confirm" / "open-failure" answer a channel open that T issued
      before the exchange (the caller is blocked in open_channel while the reply crosses the exchange).
      P->T bytes are read by T through a generated finite fragmentation plan (`net.Direction.frag`:
@@ -53,11 +55,12 @@ RULE = (
     "exec|env|exit-status|unknown x want_reply 0|1, CHANNEL_OPEN accepted|rejected, CHANNEL_OPEN_CONFIRMATION|FAILURE answering an open "
     "the tested side issued before the exchange, GLOBAL_REQUEST want_reply 0|1, REQUEST_SUCCESS|"
     "FAILURE, CHANNEL_SUCCESS|FAILURE, tested side's own keepalive) with initiator=explicit; role x {open_session/open_channel, "
-    "request_port_forward, global_request(wait=True)} started during the exchange x every in-flight kind; role x threshold-initiated "
+    "request_port_forward, global_request(wait=True)} started during the exchange x every in-flight kind; role x initiator x renegotiate_keys() "
+    "by the application at the first | last step of the running exchange; role x every operation at the last step; role x threshold-initiated "
     "exchange x recv fragmentation plans with idle gaps (partial first block, partial body) on the tested side's inbound link; plus "
     "hypothesis-drawn cases: initiator "
     "explicit|threshold|crossing|peer, 1-3 messages, 0-2 queued user operations (send, stream, global request wait 0|1, exec, channel "
-    "open, port forward request), keepalive on/off, hold time, release portions, fragmentation plan (0-10 items: max recv size 1-64 | GAP); non-trivial = every M released to the tested side strictly between its KEXINIT and "
+    "open, port forward request, renegotiate_keys) started after the tested side's KEXINIT or after its NEWKEYS (peer's NEWKEYS held), keepalive on/off, hold time, release portions, fragmentation plan (0-10 items: max recv size 1-64 | GAP); non-trivial = every M released to the tested side strictly between its KEXINIT and "
     "its NEWKEYS in the global wire order (or keepalive due while the exchange was held >= 0.3 s); distinct by the case dict"
 )
 
@@ -90,7 +93,8 @@ M_KINDS = [
     "channel-success",
     "channel-failure",
 ]
-OP_KINDS = ["send", "stream", "global", "exec", "open", "fwd", "globalw"]
+OP_KINDS = ["send", "stream", "global", "exec", "open", "fwd", "globalw", "rekey"]
+OP_ATS = ["kexinit", "newkeys"]  # when the queued operations are started: right after the tested side's KEXINIT / its NEWKEYS
 WAITING_GLOBALS = ("fwd", "globalw")  # ops that wait for the peer's REQUEST_SUCCESS / FAILURE
 PENDING_OPEN = ("open-confirm", "open-failure")  # M kinds answering an open the tested side has outstanding
 MODES = ["explicit", "threshold", "crossing", "peer"]
@@ -158,7 +162,7 @@ class OpFailed(Exception):
 
 # Known open findings that would make every generated case containing the operation fail (and cost its isolation
 # re-runs): excluded by construction while the entry is open; the committed replays demonstrate them in every run.
-FINDING_OPS = {"op-lost|op:globalw": "globalw", "op-lost|op:fwd": "fwd"}
+FINDING_OPS = {"op-lost|op:globalw": "globalw", "op-lost|op:fwd": "fwd", "session-died|op:rekey": "rekey"}
 
 
 def excluded_ops():
@@ -361,25 +365,33 @@ def execute(case):
             viol.append(("session-died", "no KEXINIT from the tested side within %.0f s (active=%s, exc=%r)" % (WAIT, T.is_active(), T.get_exception())))
             return dict(viol=viol, nontrivial=False, info=info)
         wire.mark("kexinit-seen")
+
         # ---- 4. user operations now have to queue behind the exchange
-        if "send" in ops:
-            bg("op:send", lambda: chT[3].send(c10.pattern(22, 0, 33)))
-        if "global" in ops:
-            bg("op:global", lambda: T.global_request("op@verif", wait=False))
-        if "exec" in ops:
-            bg("op:exec", lambda: chT[2 if len(ms) < 3 else 3].exec_command("true"))
-        if "open" in ops:
-            bg("op:open", t_open)
-        if "fwd" in ops:
-            bg("op:fwd", lambda: T.request_port_forward("127.0.0.1", 4243))
-        if "globalw" in ops:
+        def op_globalw():
+            if T.global_request("opw@verif", wait=True) is None:
+                raise OpFailed("global_request(wait=True) returned None (= denied) although the peer answers REQUEST_SUCCESS")
+            return True
 
-            def op_globalw():
-                if T.global_request("opw@verif", wait=True) is None:
-                    raise OpFailed("global_request(wait=True) returned None (= denied) although the peer answers REQUEST_SUCCESS")
-                return True
+        def start_ops():
+            if "send" in ops:
+                bg("op:send", lambda: chT[3].send(c10.pattern(22, 0, 33)))
+            if "global" in ops:
+                bg("op:global", lambda: T.global_request("op@verif", wait=False))
+            if "exec" in ops:
+                bg("op:exec", lambda: chT[2 if len(ms) < 3 else 3].exec_command("true"))
+            if "open" in ops:
+                bg("op:open", t_open)
+            if "fwd" in ops:
+                bg("op:fwd", lambda: T.request_port_forward("127.0.0.1", 4243))
+            if "globalw" in ops:
+                bg("op:globalw", op_globalw)
+            if "rekey" in ops:
+                # the application asks for new keys while an exchange is already under way on this side
+                bg("op:rekey", T.renegotiate_keys)
 
-            bg("op:globalw", op_globalw)
+        op_at = case.get("op_at", "kexinit")
+        if op_at == "kexinit":
+            start_ops()
         t_hold = time.time()
         to0 = timeouts[0]
         if case["hold_ms"]:
@@ -398,6 +410,21 @@ def execute(case):
             wire.mark("release-M")
             in_d.set_frag(case.get("frag"))
             in_d.release(len(ms))
+        if op_at == "newkeys":
+            # last step of the exchange: the peer's packets are let through one at a time until the tested side's
+            # NEWKEYS is on the wire; the peer's NEWKEYS stays held while the user operations are started
+            end = time.time() + WAIT
+            while time.time() < end and T.is_active() and n_type_out(21) <= nk0:
+                if in_d.n_pending():
+                    wire.mark("release")
+                    in_d.release(1)
+                t1 = time.time() + 0.05
+                while time.time() < t1 and not (in_d.idle() and out_d.idle()):
+                    time.sleep(0.002)
+            in_d.wait_pending(1, 1.0)
+            info["late_window"] = bool(n_type_out(21) > nk0 and in_d.n_pending() >= 1 and not T.clear_to_send.is_set())
+            start_ops()
+            time.sleep(max(case["hold_ms"], 20) / 1000.0)
         for n in case["sched"]:
             end = time.time() + 0.05
             while time.time() < end and not in_d.idle():
@@ -600,6 +627,7 @@ def normalise(case):
         # an unsolicited reply in flight would be taken - correctly - as the answer to the queued request
         ops = [o for o in ops if o not in WAITING_GLOBALS]
     case["ops"] = sorted(set(ops))
+    case["op_at"] = case.get("op_at", "kexinit") if [o for o in case["ops"] if o != "stream"] else "kexinit"
     case["ms"] = list(case["ms"])[:3]
     frag = []
     for x in list(case.get("frag") or [])[:10]:
@@ -679,6 +707,9 @@ class Runner:
                 cls = ["role:" + case["role"], "mode:" + case["mode"]] + ["M:" + k for k in case["ms"]] + ["op:" + k for k in case["ops"]]
                 if case["ka"]:
                     cls.append("keepalive")
+                if case.get("op_at", "kexinit") != "kexinit":
+                    cls += ["ops-at:" + case["op_at"], "ops-at:%s:%s" % (case["op_at"], "peer-newkeys-held" if r["info"].get("late_window") else "window-missed")]
+                    cls += ["ops-at:%s:op:%s" % (case["op_at"], o) for o in case["ops"]]
                 if case.get("frag"):
                     gaps = r["info"].get("gaps", 0)
                     cls += ["frag", "frag:gaps-taken:%d" % min(gaps, 3), "frag:mode:" + case["mode"]]
@@ -726,8 +757,8 @@ class Runner:
                 self.report(case, r, "combo:" + "+".join(sorted(set(comp_name(c) for c in comps))))
 
 
-def base_case(role, mode="explicit", ms=(), ops=(), ka=False, hold_ms=0, sched=(1, 1), greply=False, rp=0, frag=()):
-    return normalise(dict(role=role, mode=mode, ms=list(ms), ops=list(ops), ka=ka, hold_ms=hold_ms, sched=list(sched), greply=greply, rp=rp, frag=list(frag)))
+def base_case(role, mode="explicit", ms=(), ops=(), ka=False, hold_ms=0, sched=(1, 1), greply=False, rp=0, frag=(), op_at="kexinit"):
+    return normalise(dict(role=role, mode=mode, ms=list(ms), ops=list(ops), ka=ka, hold_ms=hold_ms, sched=list(sched), greply=greply, rp=rp, frag=list(frag), op_at=op_at))
 
 
 G = net.GAP
@@ -755,6 +786,7 @@ def cases(draw):
             greply=draw(st.booleans()),
             rp=draw(st.integers(30, 60)),
             frag=draw(st.one_of(st.just([]), st.lists(frag_items, min_size=1, max_size=10))),
+            op_at=draw(st.sampled_from(["kexinit", "kexinit", "newkeys"])),
         )
     )
 
@@ -799,6 +831,15 @@ def run(ctx):
                     c = base_case(role, ms=[k], ops=[o], hold_ms=20, greply=(role == "server"))
                     if c["ops"]:
                         enum.append(c)
+            # renegotiate_keys() by the application while an exchange (any initiator) is unfinished on this side, at its
+            # first and at its last step; every other operation started at the last step
+            for m_ in MODES:
+                for at in OP_ATS:
+                    enum.append(base_case(role, mode=m_, ms=["window-adjust"], ops=["rekey"], hold_ms=20, rp=40, op_at=at))
+            for o in OP_KINDS:
+                c = base_case(role, ms=["data"], ops=[o], hold_ms=20, op_at="newkeys")
+                if c["ops"] and o not in ("rekey", "stream"):
+                    enum.append(c)
             # threshold-initiated exchange read through a fragmenting link with idle gaps
             for j, plan in enumerate(FRAG_PLANS):
                 enum.append(base_case(role, mode="threshold", ms=[FRAG_MS[(j + (role == "server")) % len(FRAG_MS)]], rp=40, frag=plan))
